@@ -19,6 +19,12 @@ def token(rng, n=12):
 def make_creds(rng, ngroups=None):
     ngroups = ngroups if ngroups is not None else rng.choice([0, 1, 2, 3, 5, 8, 16, 31, 32])     # 0: a credential file whose accounts are in no group at all
     pool = GROUP_POOL[:ngroups]
+    if ngroups >= 3 and rng.random() < 0.35:
+        # group names far longer than anybody's fixed-size idea of a name, telling apart only behind their 64th / 128th byte (URN or
+        # directory style names), next to the short ones
+        stem = "urn:plant:site-4711:building-12:floor-3:line-7:cell-42:role:operator-group"     # 78 bytes
+        pool = [stem + ":day-shift", stem + ":night-shift", stem * 2 + "a", stem * 2 + "b"][:max(2, ngroups // 2)] + pool[:ngroups - 2]
+        pool = pool[:ngroups]
     users = {}
     kinds = ["plain", "plain", "admin", "readonly", "plain", "admin-readonly"]
     for i in range(rng.randint(1, 6)):
@@ -217,7 +223,11 @@ def access(case, res):
             elif r < 0.96:
                 tgt = rng.choice(names + ["ghost"])
                 npw = token(rng)
-                S.passwords.add(npw)
+                if rng.random() < 0.2:
+                    # passwords as short, as empty or as long as a JSON string can be
+                    npw = rng.choice(["", " ", "0", "null", "\u00fc\u00e4", token(rng) * 20])
+                if len(npw) > 8:
+                    S.passwords.add(npw)
                 S.ops.append(["passwd", c.name, c.user, tgt])
                 filefault = rng.random() < 0.25
                 if filefault:
